@@ -437,6 +437,9 @@ func (n *vfSimNet) startNode(sc *vfSimScenario, idx int, id string) *vfSimNode {
 		vivid.WithClusterVersionConcurrentStrategy(vivid.VersionConcurrentStrategy(sc.Opts.Strategy)),
 		vivid.WithClusterJoinAskTimeout(2*time.Second),
 		vivid.WithClusterGetViewAskTimeout(2*time.Second),
+		// every incarnation at an address carries its own zone label: an entry of an earlier incarnation that shadows a
+		// restarted node (same id, same generation and clock) is recognisable by the label it still shows
+		vivid.WithClusterZone(vfSimZone(n, addr)),
 	)
 	nd := &vfSimNode{net: n, addr: addr, id: id, actor: NewNodeActor(addr, *opts), ref: &vfSimRef{addr, "/@cluster"}, up: true,
 		inbox: make(chan vfSimIn, 100000), timers: map[string]*vfSimTimer{}, pending: map[int64]chan any{}, done: make(chan struct{})}
@@ -450,6 +453,14 @@ func (n *vfSimNet) startNode(sc *vfSimScenario, idx int, id string) *vfSimNode {
 	nd.inbox <- vfSimIn{msg: new(vivid.OnLaunch)}
 	n.logf(addr, "START id=%s", id)
 	return nd
+}
+
+func vfSimZone(n *vfSimNet, addr string) string {
+	inc := 0
+	if old := n.nodes[addr]; old != nil {
+		inc = old.inc + 1
+	}
+	return fmt.Sprintf("zone-inc%d", inc)
 }
 
 func (n *vfSimNet) crash(addr string) {
@@ -670,6 +681,8 @@ func (n *vfSimNet) check(sc *vfSimScenario, windowStart time.Duration) (vs []vfS
 				add("c18-stale-incarnation-shadows-restart", "the view of %s lists %s with node id %s but the running incarnation has id %s", vfShort(a), vfShort(b), m.ID, other.id)
 			} else if own := other.actor.nodeState; m.Generation != own.Generation {
 				add("c18-stale-incarnation-shadows-restart", "the view of %s lists %s at generation %d but the running incarnation is generation %d", vfShort(a), vfShort(b), m.Generation, own.Generation)
+			} else if m.Zone() != own.Zone() {
+				add("c18-stale-incarnation-shadows-restart", "the view of %s lists %s (id %s, generation %d) with zone label %q, the running incarnation started with %q: the entry is that of an earlier incarnation", vfShort(a), vfShort(b), m.ID, m.Generation, m.Zone(), own.Zone())
 			}
 			if m.Status != MemberStatusUp {
 				add("c18-live-member-not-up", "the view of %s lists running node %s as %s", vfShort(a), vfShort(b), m.Status)
